@@ -104,12 +104,17 @@ Instantiate ==
      IN IF ~t.ok \/ ~mm.ok
         THEN /\ inst' = "trap" /\ phase' = "done"
              /\ gl' = g /\ msize' = ms /\ tab' = t0 /\ mem' = m0
-             /\ UNCHANGED <<st, frs, status>>
+             /\ UNCHANGED <<st, frs, status, log>>
         ELSE /\ gl' = g /\ msize' = ms /\ tab' = t.v /\ mem' = mm.v /\ inst' = "ok"
-             /\ IF p.start >= 0
+             /\ IF p.start >= 0 /\ p.funcs[p.start + 1].imported
+                \* the start function is the host's: instantiation calls out once, before any export is called
+                THEN phase' = "calls" /\ log' = Append(log, [name |-> p.funcs[p.start + 1].name, args |-> <<>>])
+                     /\ UNCHANGED <<st, frs, status>>
+                ELSE IF p.start >= 0
                 THEN phase' = "start" /\ frs' = <<NewFrame(p, p.start + 1, <<>>, 0)>> /\ st' = <<>> /\ status' = "run"
-                ELSE phase' = "calls" /\ UNCHANGED <<st, frs, status>>
-  /\ UNCHANGED <<c, w, ci, log, res, fuel, obsIn>>
+                     /\ UNCHANGED log
+                ELSE phase' = "calls" /\ UNCHANGED <<st, frs, status, log>>
+  /\ UNCHANGED <<c, w, ci, res, fuel, obsIn>>
 
 \* ---------- calls to exports ----------
 ExportedFunc(p, name) == (CHOOSE e \in {p.exports[x] : x \in DOMAIN p.exports} : e.kind = "func" /\ e.name = name).idx + 1
